@@ -32,6 +32,10 @@ def run(check):
     check.run_rule('C12.R5', lambda c: rule_empty_selection_guarded(c, 'C12.R5'))
     from ..rules_defuse import rule_sentinel_identity
     check.run_rule('C12.R8', lambda c: rule_sentinel_identity(c, 'C12.R8', ['modifiers'], '-- kwoargs() demands an argument for a parameter that has a default', floor=2))
+    from ..rules_modifiers import rule_bound_copy_selection
+    check.run_rule('C12.R9', lambda c: rule_bound_copy_selection(c, 'C12.R9'))
+    from ..rules_wrappers import rule_transparent_receiver
+    check.run_rule('C12.R10', lambda c: rule_transparent_receiver(c, 'C12.R10', 'modifiers', ['_PokTranslator']))
     check.run_rule('C12.R2', lambda c: rule_call_table(c, 'C12.R2'))
     check.run_rule('C12.R3', lambda c: rule_forms(c, 'C12.R3'))
     from ..rules_modifiers import rule_descriptor_cache
